@@ -94,8 +94,14 @@ Apply(St, e) ==
                 g1 == Need(St, ok, "subtask.cancel of a subtask that is not in flight (C08)")
                 g2 == Need(g1, ok => St.subs[e.h].set = 0, "subtask.cancel while the subtask is still a member of a waitable set (C08)")
                 g3 == Need(g2, St.cancelReq, "an import call was cancelled although nobody cancelled the task (C08)")
-                g4 == Need(g3, ok => e.status = (IF St.subs[e.h].st = STARTING THEN START_CANCELLED ELSE RETURN_CANCELLED), "cancel status (harness)")
-            IN IF g4.bad # "" THEN g4 ELSE [g4 EXCEPT !.subs[e.h].st = e.status]
+                \* a call that is still STARTING is stopped before it starts (mode G), or has started in the meantime and gives up
+                \* (mode H): then the host has read the parameters at this very moment
+                early == ok /\ St.subs[e.h].st = STARTING /\ St.subs[e.h].mode = "G"
+                late == ok /\ St.subs[e.h].st = STARTING /\ St.subs[e.h].mode # "G"
+                g4 == Need(g3, ok => (e.status = (IF early THEN START_CANCELLED ELSE RETURN_CANCELLED) /\ e.checked = late), "cancel status (harness)")
+                g5 == Need(g4, e.errors = 0,
+                           "the lowered parameters of an async import were no longer alive / intact when the callee started just before the cancellation (C08)")
+            IN IF g5.bad # "" THEN g5 ELSE [g5 EXCEPT !.subs[e.h].st = e.status, !.subs[e.h].checked = @ \/ e.checked]
       [] e.ev = "subtask.drop" ->
             LET ok == IsSub(St, e.h) /\ ~St.subs[e.h].dropped
                 g1 == Need(St, ok, "subtask.drop of a handle that does not exist: dropped twice (C08)")
@@ -144,7 +150,7 @@ Candidates(St) ==
     \cup {[ev |-> "event", kind |-> k, h |-> 0, status |-> 0, checked |-> FALSE, errors |-> 0] : k \in {"cancel", "none"}}
     \cup {[ev |-> "borrow.drop", h |-> h] : h \in St.lent}
     \cup {[ev |-> "event", kind |-> "subtask", h |-> h, status |-> st, checked |-> c, errors |-> 0] : h \in 1..Len(St.subs), st \in {STARTED, RETURNED}, c \in BOOLEAN}
-    \cup {[ev |-> "subtask.cancel", h |-> h, status |-> st] : h \in 1..Len(St.subs), st \in {START_CANCELLED, RETURN_CANCELLED}}
+    \cup {[ev |-> "subtask.cancel", h |-> h, status |-> st, checked |-> c, errors |-> 0] : h \in 1..Len(St.subs), st \in {START_CANCELLED, RETURN_CANCELLED}, c \in BOOLEAN}
     \cup {[ev |-> "subtask.drop", h |-> h] : h \in 1..Len(St.subs)}
     \cup {[ev |-> "task.return", errors |-> 0], [ev |-> "task.cancel"], [ev |-> "task.end"]}
 
